@@ -92,11 +92,17 @@ pub struct Listeners {
     /// events delivered while the delivering thread held one of the layer's (instrumented,
     /// blocking) locks: a listener that looks into the same layer would deadlock there
     pub inside_lock: Arc<Mutex<Vec<String>>>,
+    /// every delivery takes this long (ms of wall time passing inside the poll, see
+    /// trv_core::clock::add_skew): a listener that logs synchronously to a slow sink
+    pub slow_ms: u64,
 }
 
 impl Listeners {
     pub fn new(panics: [bool; 3]) -> Arc<Listeners> {
-        Arc::new(Listeners { logs: [Default::default(), Default::default(), Default::default()], panics, inside_lock: Default::default() })
+        Arc::new(Listeners { logs: [Default::default(), Default::default(), Default::default()], panics, inside_lock: Default::default(), slow_ms: 0 })
+    }
+    pub fn slow(ms: u64) -> Arc<Listeners> {
+        Arc::new(Listeners { logs: [Default::default(), Default::default(), Default::default()], panics: [false; 3], inside_lock: Default::default(), slow_ms: ms })
     }
     pub fn hook(self: &Arc<Self>, i: usize) -> impl Fn(&str) + Send + Sync + Clone + 'static {
         let me = self.clone();
@@ -104,6 +110,13 @@ impl Listeners {
             me.logs[i].lock().unwrap().push(ev.to_string());
             if tower_resilience_core::verif::sync::locks_held() > 0 {
                 me.inside_lock.lock().unwrap().push(ev.to_string());
+            }
+            if me.slow_ms > 0 {
+                let t0 = std::time::Instant::now();
+                trv_core::clock::add_skew(Duration::from_millis(me.slow_ms));
+                if std::env::var("VERIF_DEBUG_SKEW").is_ok() {
+                    eprintln!("skew: event {ev} listener {i}: std clock moved by {:?}", t0.elapsed());
+                }
             }
             if me.panics[i] {
                 panic!("listener {i} panics on purpose");
@@ -183,6 +196,16 @@ pub fn build<S: Inner>(mw: Mw, mode: Mode, inner: S, ls: Option<Arc<Listeners>>)
                 b = b.sliding_window_size(1_000_000).wait_duration_in_open(Duration::MAX).slow_call_duration_threshold(Duration::MAX).permitted_calls_in_half_open(usize::MAX);
             }
             if let Some(ls) = &ls {
+                // (listener runs: slow-call detection is on, far above anything the calls take)
+                if mode != Mode::Extreme {
+                    // (time-based window, evaluated from the first call on)
+                    b = b
+                        .sliding_window_type(tower_resilience_circuitbreaker::SlidingWindowType::TimeBased)
+                        .sliding_window_duration(Duration::from_secs(3600))
+                        .slow_call_duration_threshold(Duration::from_millis(500))
+                        .slow_call_rate_threshold(0.5)
+                        .minimum_number_of_calls(1);
+                }
                 for i in 0..3 {
                     let (h1, h2, h3) = (ls.hook(i), ls.hook(i), ls.hook(i));
                     b = b.on_call_permitted(move |_| h1("permitted")).on_success(move |_| h2("success")).on_failure(move |_| h3("failure"));
